@@ -80,6 +80,10 @@ FIXED_WITNESSES = [
     ("liquid-comment-indented", "{% liquid\n  comment\n  hello\n    comment\n   nested\n  endcomment\n  endcomment\n echo 'a'\n%}", {}, {}, "a"),
     ("cycle-template-string-identity", "{% cycle \"a${x}\", 'B' %}|{% cycle \"a${x}\", 'B' %}", {}, {"x": 1}, "a1|B"),
     ("cycle-template-string-identity", "{% include 'p' %}|{% include 'p' %}", {"p": "{% cycle \"${x}\", 'B' %}"}, {"x": 1}, "1|B"),
+    # first on any Mapping (d21fa41): a forloop's first pair, nil for an undefined value (an empty Mapping)
+    ("first-on-any-mapping", "{% for i in (1..2) %}{{ forloop | first | join: ':' }};{% endfor %}{% assign a = nosuch | first %}[{{ a | json }}]", {}, {}, "first:true;first:false;[null]"),
+    # cycle groups are told apart by the text of their items, not by a hash (C12/0020)
+    ("cycle-key-is-item-text", "{% cycle -1, 5 %}{% cycle -2, 5 %}|{% cycle 1, 'x' %}{% cycle 1.0, 'x' %}{% cycle true, 'x' %}", {}, {}, "-1-2|11.0true"),
 ]
 
 
